@@ -436,7 +436,19 @@ func runC05(c *Ctx) {
 			st, ok := t.Underlying().(*types.Slice)
 			return ok && namedIs(st.Elem(), repoPath("ovmf"), "GuestPhysicalRegion")
 		}
-		if sig.Params().Len() != 2 || sig.Results().Len() != 1 || !isGPRs(sig.Params().At(0).Type()) || !isGPRs(sig.Params().At(1).Type()) || !isGPRs(sig.Results().At(0).Type()) {
+		nGPRs := 0
+		for i := 0; i < sig.Params().Len(); i++ {
+			if isGPRs(sig.Params().At(i).Type()) {
+				nGPRs++
+			}
+		}
+		hasGPRsResult := false
+		for i := 0; i < sig.Results().Len(); i++ {
+			if isGPRs(sig.Results().At(i).Type()) {
+				hasGPRsResult = true
+			}
+		}
+		if nGPRs == 0 || !hasGPRsResult {
 			continue
 		}
 		loops := naturalLoops(f)
@@ -459,6 +471,12 @@ func runC05(c *Ctx) {
 								shared = true
 							}
 						}
+					}
+					// or carried across the caller's loop: the sweep of one outer element is a helper that takes the
+					// cursor as a parameter and returns it, and a call site feeds the result back into that argument
+					// through a loop φ
+					if par, ok := e.(*ssa.Parameter); ok && cursorCarriedByCaller(c, f, par, cur) {
+						shared = true
 					}
 					if bo, ok := e.(*ssa.BinOp); ok && bo.Op == token.ADD && bo.X == ssa.Value(cur) {
 						if k, ok := constInt(bo.Y); ok && k == 1 {
@@ -527,22 +545,32 @@ func runC05(c *Ctx) {
 					al, ok := fa.X.(*ssa.Alloc)
 					return ok && al != elem && namedIs(al.Type(), repoPath("ovmf"), "GuestPhysicalRegion")
 				}
+				justifies := func(cf condFact) string {
+					op, other, ok := relFact(cf, fromElem)
+					if !ok {
+						return ""
+					}
+					if k, isK := constInt(other); isK && k == 0 && op == token.EQL {
+						return "element is empty"
+					}
+					if (op == token.LEQ || op == token.LSS) && outerField(other) && !fromElem(other) {
+						return "element ends at or before the current outer element's start"
+					}
+					return ""
+				}
 				for _, inc := range incs {
 					justified := ""
 					for _, cf := range dominatingConds(inc.Block()) {
 						if !L.Body[cf.Block] {
 							continue
 						}
-						op, other, ok := relFact(cf, fromElem)
-						if !ok {
-							continue
+						if j := justifies(cf); j != "" {
+							justified = j
 						}
-						if k, isK := constInt(other); isK && k == 0 && op == token.EQL {
-							justified = "element is empty"
-						}
-						if (op == token.LEQ || op == token.LSS) && outerField(other) && !fromElem(other) {
-							justified = "element ends at or before the current outer element's start"
-						}
+					}
+					// `if empty || endsBefore { cursor++ }`: two edges enter the increment, each justified
+					if justified == "" && everyPathThroughEdge(L, inc.Block(), func(cf condFact) bool { return justifies(cf) != "" }) {
+						justified = "element is empty or ends at or before the current outer element's start (on every edge into the increment)"
 					}
 					construct := load.FuncName(f) + ":cursor advance"
 					c.S.Check(justified != "", "R5", construct, c.pos(inc.Pos()), "shared cursor advanced because the "+justified,
@@ -589,4 +617,61 @@ func (c *Ctx) sortOnCopiesRule(rule string, sel func(*ssa.Function) bool) int {
 		}
 	}
 	return nSort
+}
+
+// cursorCarriedByCaller: f returns (a value derived from) the loop cursor cur, which starts at f's parameter par, and
+// at some call site the argument for par is a loop-header φ one of whose edges is that call's own result.
+func cursorCarriedByCaller(c *Ctx, f *ssa.Function, par *ssa.Parameter, cur *ssa.Phi) bool {
+	idx := -1
+	for i, p := range f.Params {
+		if p == par {
+			idx = i
+		}
+	}
+	if idx < 0 {
+		return false
+	}
+	// which result carries the cursor
+	res := -1
+	for _, b := range f.Blocks {
+		if ret, ok := b.Instrs[len(b.Instrs)-1].(*ssa.Return); ok {
+			for i, r := range ret.Results {
+				if r == ssa.Value(cur) {
+					res = i
+				}
+				if ph, ok := r.(*ssa.Phi); ok {
+					for _, e := range ph.Edges {
+						if e == ssa.Value(cur) {
+							res = i
+						}
+					}
+				}
+			}
+		}
+	}
+	if res < 0 {
+		return false
+	}
+	n := c.P.CallGraph().Nodes[f]
+	if n == nil {
+		return false
+	}
+	for _, e := range n.In {
+		if e.Site == nil || e.Site.Common().StaticCallee() != f || idx >= len(e.Site.Common().Args) {
+			continue
+		}
+		ph, ok := e.Site.Common().Args[idx].(*ssa.Phi)
+		if !ok {
+			continue
+		}
+		for _, pe := range ph.Edges {
+			if ex, ok := pe.(*ssa.Extract); ok && ex.Tuple == e.Site.Value() && ex.Index == res {
+				return true
+			}
+			if pe == ssa.Value(e.Site.Value()) && f.Signature.Results().Len() == 1 {
+				return true
+			}
+		}
+	}
+	return false
 }
